@@ -7,6 +7,7 @@ package sftp
 
 import (
 	"fmt"
+	"os"
 	"math/rand/v2"
 	"runtime"
 	"sort"
@@ -105,9 +106,11 @@ type vfSim struct {
 	inv      func() // invariant evaluated at every quiescent point
 	onStep   func(key string)
 	ticks    bool // allow clock ticks when nothing is eligible
+	sendProbe func() bool // if set, cc.send waiters are released only when this probe of the connection's write lock succeeds
 	start    time.Time
 }
 
+var vfTraceSets = os.Getenv("VF_TRACESETS") == "1"
 var vfCur atomic.Pointer[vfSim]
 var vfProgress atomic.Int64
 
@@ -131,6 +134,10 @@ func vfNewSim(tape *vfTape, maxSteps int) *vfSim {
 func vfHook(site string, key uint64) {
 	s := vfCur.Load()
 	if s == nil || !s.sites[site] {
+		return
+	}
+	if site == "cc.send" && s.sendProbe != nil {
+		s.park(fmt.Sprintf("h:%s:%010d", site, key), s.sendProbe)
 		return
 	}
 	s.park(fmt.Sprintf("h:%s:%010d", site, key), nil)
@@ -302,11 +309,17 @@ func (s *vfSim) step(filter func(key string) bool) bool {
 	s.hashStr(&s.shash, e.key)
 	if s.traceOn {
 		s.mu.Lock()
-		s.trace = append(s.trace, fmt.Sprintf("%5d %s   (of %d)", s.seq, e.key, len(evs)))
+		line := fmt.Sprintf("%5d %s   (of %d)", s.seq, e.key, len(evs))
+		if vfTraceSets {
+			for _, x := range evs {
+				line += " " + x.key
+			}
+		}
+		s.trace = append(s.trace, line)
 		s.mu.Unlock()
 	}
 	// a fired non-probe event makes stale lock waiters eligible again
-	if !strings.HasPrefix(e.key, "h:f.lock") {
+	if !strings.HasPrefix(e.key, "h:f.lock") && !(s.sendProbe != nil && strings.HasPrefix(e.key, "h:cc.send")) {
 		s.mu.Lock()
 		for _, o := range s.parked {
 			o.stale = false
